@@ -22,8 +22,8 @@ CFG = {
             "default styles with and without a link, 14 hand-made strings around the link state), genLong (strings of 4-8 kB, thorough 16 kB: every rune boundary of four "
             "multi-rune graphemes on and next to the 4096-byte buffer boundaries of the parser's reader: rt cells|ss, decb cells|ss). Round 4: dec-truncated-pos (every cut of the legacy and colon forms of "
             "38/48/58 after 0-5 leading and before 0-2 trailing parameters, all three consumers: 3 x 1188), agr (the three real consumers side by side on arbitrary well-printed parameter lists: "
-            "vocabulary alone / prefixed / suffixed / embedded, 16x16 pairs, 3 000 random lists of 1-7 parameters with 1-7 sub-parameters; thorough 120 000), rdf (850 real rendered frames, every "
-            "capability setting and the legacy quirk, read back by the real ParseStyledString / NewStyledString), 47 documentation cases of the nine consumer-disagreement classes (corpus). distinct = distinct op line",
+            "vocabulary alone / prefixed / suffixed / embedded, 16x16 pairs, 3 000 random lists of 1-7 parameters with 1-7 sub-parameters; thorough 60 000), rdf (850 real rendered frames, every "
+            "capability setting and the legacy quirk, read back by the real ParseStyledString / NewStyledString / emulator sgr()), 47 documentation cases of the nine consumer-disagreement classes (corpus). distinct = distinct op line",
     "trusted_base": ["A-concat as the explicit hypothesis TextOK of the byte-level theorems: every grapheme is non-empty, starts with a rune >= 0x20 and is one "
                      "grapheme cluster (uniseg oracle cl) of the text that follows it; checked per case by the decb stream (real functions on the real "
                      "strings, cluster table from the real uniseg)",
